@@ -7,6 +7,7 @@ import (
 
 	"github.com/gogo/protobuf/proto"
 	"github.com/hashicorp/raft"
+	"github.com/influxdata/influxdb/pkg/verifhook"
 	internal "github.com/influxdata/influxdb/services/meta/internal"
 	"github.com/influxdata/influxql"
 	"go.uber.org/zap"
@@ -118,6 +119,9 @@ func (fsm *storeFSM) Apply(l *raft.Log) interface{} {
 	close(s.dataChanged)
 	s.dataChanged = make(chan struct{})
 
+	if verifhook.Enabled {
+		verifhook.Emit("meta.fsm.apply", s.raftAddr, l.Index, l.Term, &cmd, err, fsm.data)
+	}
 	return err
 }
 
@@ -645,6 +649,11 @@ func (fsm *storeFSM) Snapshot() (raft.FSMSnapshot, error) {
 	s.mu.Lock()
 	defer s.mu.Unlock()
 
+	if verifhook.Enabled {
+		snap := &storeFSMSnapshot{Data: (*store)(fsm).data}
+		verifhook.Emit("meta.fsm.snapshot", s.raftAddr, snap, s.data)
+		return snap, nil
+	}
 	return &storeFSMSnapshot{Data: (*store)(fsm).data}, nil
 }
 
@@ -666,6 +675,9 @@ func (fsm *storeFSM) Restore(r io.ReadCloser) error {
 	// with any other function.
 	fsm.data = data
 
+	if verifhook.Enabled {
+		verifhook.Emit("meta.fsm.restore", fsm.raftAddr, data)
+	}
 	return nil
 }
 
@@ -674,11 +686,17 @@ type storeFSMSnapshot struct {
 }
 
 func (s *storeFSMSnapshot) Persist(sink raft.SnapshotSink) error {
+	if verifhook.Enabled {
+		verifhook.Emit("meta.fsm.persist.begin", s)
+	}
 	err := func() error {
 		// Encode data.
 		p, err := s.Data.MarshalBinary()
 		if err != nil {
 			return err
+		}
+		if verifhook.Enabled {
+			verifhook.Emit("meta.fsm.persist", s, p)
 		}
 
 		// Write data to sink.
